@@ -359,6 +359,40 @@ func (e *c06Exec) op(op string) string {
 			return "~" + msg
 		}
 		return "ok"
+	case "c.trimcrash":
+		// "two hours later" the WAL trimmers run (bounded by the commit offset the controllers report), then the
+		// node crashes: its database falls back to its last flush. What lies between the commit offset in that
+		// database and the first entry its log still holds cannot be replayed.
+		if !e.isMember(f[1]) {
+			return "ok"
+		}
+		if ld := e.c.LeaderNode(); ld != nil && ld.Name == f[1] {
+			return "ok" // followers only: the scenario is about the replay of a restarted node
+		}
+		if err := e.c.TrimAll(); err != nil {
+			e.poisoned = true
+			return "~err:trim:" + strings.ReplaceAll(err.Error(), " ", "_")
+		}
+		if _, err := e.c.Crash(f[1]); err != nil {
+			e.poisoned = true
+			return "~err:crash:" + strings.ReplaceAll(err.Error(), " ", "_")
+		}
+		var n *cluster.Node
+		for _, x := range e.c.Nodes {
+			if x.Name == f[1] {
+				n = x
+			}
+		}
+		dbc, err := n.DB().ReadCommitOffset()
+		if err != nil {
+			e.poisoned = true
+			return "~err:commit-offset:" + strings.ReplaceAll(err.Error(), " ", "_")
+		}
+		if first := e.c.WalFirstOffset(f[1]); first > dbc+1 {
+			e.poisoned = true
+			return fmt.Sprintf("REPLAY-GAP node=%s db-commit-offset=%d wal-first-offset=%d", f[1], dbc, first)
+		}
+		return "ok"
 	case "c.failelect":
 		// the leader, cut off, takes a write it cannot commit and fails to get elected for the next term; another
 		// node is elected by the others and the old leader comes back as a follower (its uncommitted entry is
@@ -503,6 +537,8 @@ func (C06) Oracle(ops, impl, model []string) string {
 		switch {
 		case out == "hang" || out == "panic":
 			return fmt.Sprintf("op %d (%s): %s", i, o, out)
+		case strings.HasPrefix(out, "REPLAY-GAP"):
+			return fmt.Sprintf("op %d: after the crash the entries between the commit offset in the node's database and the first entry its trimmed log still holds are neither in the database nor in the log: %s (the trimmer is bounded by the commit offset in memory, not by what the database has flushed)", i, out)
 		case strings.HasPrefix(out, "APPLIED-UNCOMMITTED"):
 			return fmt.Sprintf("op %d: a node that failed to get elected has applied entries of its log that no quorum had acknowledged: %s", i, out)
 		case strings.HasPrefix(out, "DIVERGED"):
@@ -543,6 +579,35 @@ func (C07) Generate(rng *rand.Rand, tier string) []core.Case {
 		mode := []string{"mix", "idx", "mix", "seq", "notif"}[rng.Intn(5)]
 		prog := g.program(mode, 10+rng.Intn(30))
 		cases = append(cases, core.Case{Name: fmt.Sprintf("crash-%s-%d", mode, i), Ops: clusterProgramOpt(rng, prog, true)})
+	}
+	// the WAL is trimmed (entries older than the retention time, up to the commit offset) and a follower crashes:
+	// values large enough for the 8 KB segments of the harness to roll over several times
+	nt := 2
+	if tier == "thorough" {
+		nt = 20
+	}
+	for i := 0; i < nt; i++ {
+		ops := []string{"c.init rf=3 notif=1"}
+		off, ts := 0, 1000
+		write := func() {
+			ts += 2
+			val := strings.Repeat(fmt.Sprintf("%02x", 65+rng.Intn(26)), 300+rng.Intn(500))
+			ops = append(ops, fmt.Sprintf("db.write off=%d ts=%d P:%s:%s:_:_:_:_:_:_", off, ts, core.Hex([]byte(fmt.Sprintf("big%d", off%7))), val))
+			off++
+		}
+		for j := 0; j < 25+rng.Intn(20); j++ {
+			write()
+		}
+		ops = append(ops, "c.join")
+		ts += 3
+		ops = append(ops, fmt.Sprintf("c.checkpoint ts=%d", ts))
+		off++
+		ops = append(ops, "c.trimcrash "+[]string{"n1", "n2"}[i%2]) // n2 has joined through a snapshot: its database was flushed then
+		write()
+		write()
+		ts += 3
+		ops = append(ops, fmt.Sprintf("c.checkpoint ts=%d", ts))
+		cases = append(cases, core.Case{Name: fmt.Sprintf("trim-crash-%d", i), Ops: ops})
 	}
 	return cases
 }
